@@ -520,6 +520,23 @@ func judge(p *plan, c *Case, lastAck int, what string) string {
 				return fmt.Sprintf("%s: latest status of %s is run %s with status seq %d; allowed %v", what, filepath.Base(loc), who.req, seqOf(st), ex[who].allowed)
 			}
 			recent := db.ReadStatusRecent(loc, 1000)
+			// a bound does not hide what the unbounded listing shows: asking for as
+			// many runs as there are (or for the newest one) returns those runs,
+			// whatever unreadable leftovers of the crash lie in between
+			for _, n := range []int{len(recent), 1} {
+				if n == 0 || n > len(recent) {
+					continue
+				}
+				got := db.ReadStatusRecent(loc, n)
+				if len(got) != n {
+					return fmt.Sprintf("%s: the recent history of %s lists %d run(s), but asked for the %d newest it returns %d", what, filepath.Base(loc), len(recent), n, len(got))
+				}
+				for i := range got {
+					if got[i].Status.RequestID != recent[i].Status.RequestID {
+						return fmt.Sprintf("%s: the %d newest runs of %s differ from the head of the full listing at position %d (%s vs %s)", what, n, filepath.Base(loc), i, got[i].Status.RequestID, recent[i].Status.RequestID)
+					}
+				}
+			}
 			have := map[string]int{}
 			for _, sf := range recent {
 				have[sf.Status.RequestID] = seqOf(sf.Status)
